@@ -74,6 +74,17 @@ class GarbageCollector:
         """
         stats = {"data_files": 0, "manifest_files": 0, "manifest_lists": 0}
 
+        # 0. Load in-flight protection markers BEFORE reading the metadata. A
+        # committing transaction writes its marker before the file and removes it
+        # only after the commit point, so with this order every file of a
+        # concurrent transaction is seen either as protected (marker still
+        # there) or as reachable (marker gone => its commit is already in the
+        # metadata read below). Reading the metadata first left a window: a
+        # commit landing between the two reads was in neither view, and the
+        # files of a long-running transaction (older than the grace period) were
+        # deleted right after they became referenced.
+        protected_files = self._load_inflight_protection(inflight_timeout_ms)
+
         # 1. Refresh metadata to get latest view
         metadata = self.metadata_manager.refresh()
         if not metadata:
@@ -130,8 +141,7 @@ class GarbageCollector:
         logger.info(f"Found reachable: {len(reachable_manifest_lists)} manifest lists, "
                     f"{len(reachable_manifests)} manifests, {len(reachable_data_files)} data files")
 
-        # 3. Load in-flight protection markers (and sweep abandoned ones)
-        protected_files = self._load_inflight_protection(inflight_timeout_ms)
+        # 3. In-flight protection was loaded up front (step 0)
         if protected_files:
             logger.info(f"Protecting {len(protected_files)} in-flight files from GC")
 
